@@ -173,6 +173,11 @@ native {
    eqrel_ternary_protocol_le6 => |s, r| { eqrel::protocol3::<6, 2>(s, r) },
    trrel_protocol_le6 => |s, r| { trrel_prov::protocol2::<6>(s, r) },
    trrel_ternary_protocol_le6 => |s, r| { trrel_prov::protocol3::<6, 2>(s, r) },
+   trrel_uf_protocol_le5 => |s, r| { trrel_uf_prov::uf_protocol2::<5>(s, r) },
+   trrel_uf_protocol_le6 => |s, r| { trrel_uf_prov::uf_protocol2::<6>(s, r) },
+   trrel_uf_ternary_protocol_le5 => |s, r| { trrel_uf_prov::uf_protocol3::<5, 2>(s, r) },
+   trrel_uf_ternary_protocol_k3_le4 => |s, r| { trrel_uf_prov::uf_protocol3::<4, 3>(s, r) },
+   trrel_uf_ternary_protocol_k3_le5 => |s, r| { trrel_uf_prov::uf_protocol3::<5, 3>(s, r) },
    trrel_uf_protocol_le4 => |s, r| { trrel_uf_prov::uf_protocol2::<4>(s, r) },
    trrel_uf_ternary_protocol_le4 => |s, r| { trrel_uf_prov::uf_protocol3::<4, 2>(s, r) },
    eqrel_ternary_protocol_k3_le4 => |s, r| { eqrel::protocol3::<4, 3>(s, r) },
